@@ -87,17 +87,18 @@ def get_cfg(name):
             _CFG[name] = {
                 '1': {'field_name': 'Bitmap secondary', 'field_type': 'FIXED', 'field_length': 8},
                 '2': {'field_name': 'w1500', 'field_type': 'FIXED', 'field_length': 1500},
-                '3': {'field_name': 'dec40', 'field_type': 'FIXED', 'field_length': 40,
-                      'field_python_type': 'decimal'},
+                # 'field_name' is documentation only: entries without it, and with keys the library does not know
+                '3': {'field_type': 'FIXED', 'field_length': 40, 'field_python_type': 'decimal',
+                      'comment': 'site note'},
                 '4': {'field_name': 'w1003', 'field_type': 'FIXED', 'field_length': 1003},
-                '5': {'field_name': 'lllvar', 'field_type': 'LLLVAR', 'field_length': 0},
+                '5': {'field_type': 'LLLVAR', 'field_length': 0},
                 '6': {'field_name': 'int30', 'field_type': 'FIXED', 'field_length': 30, 'field_python_type': 'int'},
                 '7': {'field_name': 'w2000', 'field_type': 'FIXED', 'field_length': 2000},
                 '8': {'field_name': 'pan', 'field_type': 'LLVAR', 'field_length': 0, 'field_processor': 'PAN'},
                 '9': {'field_name': 'dec31', 'field_type': 'FIXED', 'field_length': 31,
                       'field_python_type': 'decimal'},
                 '10': {'field_name': 'pds', 'field_type': 'LLLVAR', 'field_length': 0, 'field_processor': 'PDS'},
-                '11': {'field_name': 'w3', 'field_type': 'FIXED', 'field_length': 3},
+                '11': {'field_type': 'FIXED', 'field_length': 3},
                 '70': {'field_name': 'w1002', 'field_type': 'FIXED', 'field_length': 1002},
                 '127': {'field_name': 'long60', 'field_type': 'FIXED', 'field_length': 60,
                         'field_python_type': 'long'},
